@@ -221,8 +221,9 @@ AtomV(a, cx) ==
       [] a.k = "nn" -> Cardinality(cx.nb)              \* N_NBRS
       [] a.k = "nsum" ->                                \* sum of s_<n> over NBRS
             SumFn(cx.nb, [j \in cx.nb |-> PAt(cx.A[cx.s], cx.st, a.n, j, a.i)])
-      [] a.k = "psum" ->                                \* sum(dst.<n>) (py hooks)
-            SumSeq(cx.A[cx.d].p[a.n], Len(cx.A[cx.d].p[a.n]))
+      [] a.k = "psum" ->    \* sum(dst.<n>) in a py hook: attribute access on a
+                            \* ParticleArray yields the real particles only
+            SumSeq(cx.A[cx.d].p[a.n], cx.A[cx.d].nreal * cx.st[a.n])
       [] a.k = "h2" ->                                  \* helper pk_h2(u, v)
             LET u == AtomV(a.a[1], cx)
                 v == AtomV(a.a[2], cx)
